@@ -11,8 +11,7 @@ EXPLANATION = (
     "threshold, the epoch string's bytes) and share_with_local_randomness is called on it; group_shares splits on "
     "newlines, base64-decodes (same alphabet) and parses every chunk, hands them to share_recover, derives the key "
     "from the recovered message and the epoch string's bytes and returns base64 of exactly that 16-byte key; (R3) "
-    "a recovery error or any undecodable chunk yields None; (R5) the delegated recovery admits a share to interpolation only on a successful distinct-x insertion and refuses iff fewer than threshold distinct points (C01.R4 re-run); (R4) no input text can panic group_shares (the C09 "
-    "obligations of that entry point, re-checked here).  NOT decided: equality with the core library's values for "
+    "a recovery error or any undecodable chunk yields None; (R5) the delegated recovery admits a share to interpolation only on a successful distinct-x insertion and refuses iff fewer than threshold distinct points (C01.R4 re-run); (R4) no measurement, threshold, epoch or share text can panic create_share / group_shares (C09 engine run on both entry points).  NOT decided: equality with the core library's values for "
     "concrete inputs beyond the delegation structure.")
 ASSUMPTIONS = ["format!/fmt::Arguments template layout of the pinned nightly (length-prefixed literals, 0xC0 placeholders)"]
 TRUSTED = []
@@ -152,6 +151,12 @@ def run(ctx):
         okc = okpush and oknone
     ctx.add("C17.R3", root + "#some-requires-decodable-chunks", okc, "Some(..) must require every chunk to be valid base64 (and a valid share): an undecodable chunk must lead to None", at)
     ctx.floor("C17.R3", 2)
+    # ---- R4: no measurement / epoch / share text can crash either call (PANIC engine of C09; allocation sizes excluded)
+    from . import c09
+    c09.run_entries(ctx, "C17.R4", [("star_wasm::create_share", {"measurement", "epoch", "threshold"}, "A"),
+                                     ("star_wasm::group_shares", {"serialized_shares", "epoch"}, "A")], 64,
+                    skip_kinds=("alloc",), skip_fns=("star_sharks::share_ff::<impl std::convert::From<&share_ff::Share> for std::vec::Vec<u8>>::from",))
+    ctx.floor("C17.R4.ENTRY", 2)
     # ---- R5: the core recovery the wrapper delegates to counts distinct shares correctly (C01.R4 re-run) --------
     from . import c01
     c01.recover_guards(ctx, "C17.R5")
